@@ -266,10 +266,10 @@ func checkC13(c *Ctx, w *World) {
 			if u, ok := st.Val.(*ssa.UnOp); ok {
 				if ia, ok := u.X.(*ssa.IndexAddr); ok && isList(ia.X) {
 					if i, isC := constInt(ia.Index); isC && i == 0 {
-						cs := newCondSpace(m.ctor, recOf(eqAtom("empty", func(v ssa.Value) bool {
+						cs := newCondSpace(m.ctor, recOf(lenZeroAtom("empty", func(v ssa.Value) bool {
 							call, ok := stripConv(v).(*ssa.Call)
 							return ok && calleeOf(&call.Call).Builtin == "len" && isList(call.Call.Args[0])
-						}, constIs(0))), "empty")
+						})), "empty")
 						if imp, _ := cs.Implies(cs.Reach(st), cs.Not(cs.Atom("empty"))); imp {
 							ctorOK = true
 						}
@@ -543,10 +543,10 @@ func checkNonEmpty(m *mectx) {
 		} else {
 			list = isVal(fn.Params[1])
 		}
-		lenEmpty := eqAtom("empty", func(v ssa.Value) bool {
+		lenEmpty := lenZeroAtom("empty", func(v ssa.Value) bool {
 			call, ok := stripConv(v).(*ssa.Call)
 			return ok && calleeOf(&call.Call).Builtin == "len" && list(call.Call.Args[0])
-		}, constIs(0))
+		})
 		cs := newCondSpace(fn, recOf(lenEmpty), "empty")
 		// every effect has reach ⇒ ¬empty; error returns have reach ⇒ empty and no effect precedes them
 		var effects []ssa.Instruction
